@@ -86,6 +86,12 @@ fn long_extend(seeds: u64, config: &cgt_core::Config, cnt: &mut Counters) -> Vec
                 held -= sq;
             }
         }
+        // a larger sale the day after the last purchase of the prefix (it empties several old lots for good)
+        {
+            let k = months - 1;
+            let sq = rng.gen_range(40..=60).min(held - 1);
+            fund.push(Transaction { date: d(2015 + (k / 12) as i32, 1 + k % 12, 16), ticker: "FUND".into(), operation: Operation::Sell { amount: Decimal::from(sq), price: gbp(rng.gen_range(1000..1500)), fees: gbp(100) } });
+        }
         // BOND: bought once, an accumulation and a capital return on one day; the return fits only after the accumulation
         let mut bond: Vec<Transaction> = vec![
             Transaction { date: d(2019, 5, 1), ticker: "BOND".into(), operation: Operation::Buy { amount: Decimal::from(10), price: gbp(1000), fees: gbp(0) } },
